@@ -36,13 +36,17 @@ def consts(maxpeer=99, maxsteps=99, dev=(), maxsess=99):
 def nonvacuous(ctx):
     """The invariants must be able to fail: with a deviation switched on TLC has to find it."""
     runs = (("client", "ExitWithoutSuccess", "C03_ClientAuthn"),
+            # (a <success/> whose content is no payload taken for the signal)
+            ("client", "MalformedSuccessCounts", "C03_ClientAuthn"),
             ("server", "SkipPermission", "C03_ServerAuthn"),
             # (a negotiator that survives into the next session: TLC reports the invariant it breaks first - the
             # stale mechanism was not advertised in this session - or the action property itself)
             ("server", "KeepStateAcrossSessions", "C03_MechanismMutual|C03_SessionFresh"))
-    for role, dev, inv in runs:
+    def one(run):
+        role, dev, inv = run
         cfg = consts(3, 2, [dev], maxsess=2).replace('Roles = {"client","server"}', 'Roles = {"%s"}' % role) + MC_CFG
-        r = ctx.tlc("MCSASL", cfg, timeout=300, name="MCSASL")
+        return ctx.tlc("MCSASL", cfg, timeout=300, name="MCSASL", workers=4)
+    for (role, dev, inv), r in zip(runs, ac.parallel(one, runs)):
         if not set(inv.split("|")) & set(r.violated):
             raise verif.Undecided("non-vacuity: deviation %s does not violate %s:\n%s" % (dev, inv, r.out[-1500:]))
     return len(runs)
@@ -112,10 +116,14 @@ def describe(tr, hw):
     what = "SASL trace is not a behaviour of SASL.tla"
     if e and e["ev"] in ("negret", "return") and e.get("authn"):
         role = tr[0]["role"]
-        seen = any(x["ev"] == "peer" and x["item"]["k"] == "success" for x in tr)
+        succ = [x["item"] for x in tr if x["ev"] == "peer" and x["item"]["k"] == "success"]
         steps = [x for x in tr if x["ev"] == "step"]
-        if role == "client" and not seen:
+        if role == "client" and not succ:
             what = "client returned Authn although the peer never sent <success/>"
+        elif role == "client" and steps and not (steps[-1]["err"] or steps[-1]["more"]):
+            # (the mechanism completed and <success/> elements were seen: none of them is a success signal)
+            what = "client returned Authn although every <success/> of the peer held something that is not a payload (%s): no success signal" % (
+                ", ".join(repr(ac.payload_text(x["p"])) for x in succ[:3]))
         elif steps and (steps[-1]["err"] or steps[-1]["more"]):
             what = "%s returned Authn although the mechanism had not completed without error" % role
         elif role == "server":
@@ -152,7 +160,7 @@ def run(ctx):
         # must report the session as behaving differently
         probe = {"fam": "shared", "role": "server", "local": ["M1", "M2"], "sched": "seq", "sessions": [
             {"fam": "script", "role": "server", "local": ["M1", "M2"], "adv": [], "dev": "", "pwok": False,
-             "script": [{"more": False, "err": False, "perm": "yes"}], "peer": [{"k": "auth", "p": "ok", "m": "M1"}]}] * 2}
+             "script": [{"more": False, "err": False, "perm": "yes"}], "peer": [{"k": "auth", "p": [1, 1, 1, 1], "m": "M1"}]}] * 2}
         pp = ctx.path("shared-selftest.ndjson")
         open(pp, "w").write(json.dumps(probe) + "\n")
         for corrupt in ("0", "1"):
@@ -171,6 +179,23 @@ def run(ctx):
         summ["traces"], summ["events"], len(rej), r.distinct, r.wall))
 
     trs, meta = ac.load_traces(tr)
+    # OBSERVATION, not judged: the receiving side hands a mechanism the EMPTY payload for an <auth/> / <response/>
+    # whose content is no payload (sasl.go decodes only where DecodedLen > 1, i.e. from four characters on). The
+    # property ties the receiving side's Authn to the mechanism and the permission callback, which are satisfied.
+    cls = {tuple(x["p"]): x["c"] for x in json.load(open(pool["sasl_pool.json"]))["shapes"]}
+    srv_bad = 0
+    for t in trs.values():
+        if t[0]["role"] == "server" and t[-1].get("authn"):
+            items = [e["item"] for e in t if e["ev"] == "peer" and e["item"]["k"] in ("auth", "response")]
+            last = max([i for i, x in enumerate(items) if x["k"] == "auth"] or [0])
+            srv_bad += any(cls.get(tuple(x["p"])) == "bad" for x in items[last:])
+    if srv_bad:
+        ctx.log("OBSERVATION (not judged): %d receiving-side runs authenticated after an <auth/>/<response/> whose content is no base64 payload (taken for the empty payload)" % srv_bad)
+        ctx.notes.append("observation: %d receiving-side runs authenticated after an undecodable request payload (handed to the mechanism as empty)" % srv_bad)
+    spins = summ["extra"].get("scram_client_steps_that_would_never_return", 0)
+    if spins:
+        ctx.log("OBSERVATION (not judged, mellium.im/sasl): %d challenges on which the SCRAM client's Step would never return were answered by the driver in its place" % spins)
+        ctx.notes.append("observation: %d SCRAM server-first messages on which mellium.im/sasl's client Step would spin for ever (last field shorter than 3 bytes / without '='); the driver answered them with an error in the mechanism's place" % spins)
     tolerated = {}
     devs = sorted({f["deviation"] for f in ctx.open_findings() if f.get("deviation")})
     if rej and devs:
@@ -210,7 +235,10 @@ def run(ctx):
         "authenticated_runs": summ["extra"]["authn"], "runs_by_family": summ["extra"]["by_family"],
         "shared_feature_value_runs": summ["extra"].get("shared_runs", 0), "shared_feature_value_runs_differing": summ["extra"].get("shared_runs_differing", 0),
         "rejected": len(rej), "tolerated_known": len(tolerated),
+        "observed_server_authn_after_undecodable_request_payload": srv_bad,
+        "observed_scram_client_steps_that_would_never_return": spins,
         "nonvacuity_runs_violating": nv, "binding_selftest_mutants_rejected": nself,
+        "payload_shapes": "every <challenge/>, <success/> (and <failure/> text) sent to a client and every <auth/>, <response/> sent to a server with every payload shape of SASL.tla (%d shapes by length 0, '=', 1, 2, 3, 4, 5-9, 64, 65 and alphabet: base64 characters, padding in and out of place, characters outside the alphabet, blanks and line feeds; classified by the grammar of RFC 4648 in the spec) at every position of the exchange of scripted mechanisms that complete after 0, 1, 2 rounds (followed by every honest continuation), and in place of every element of a well-behaved real counterpart (client: PLAIN, ANONYMOUS, SCRAM-SHA-1; server: PLAIN, SCRAM-SHA-1)" % len(cls),
         "exhaustive": "peer sequences: every reachable prefix up to length %s (client) / %s (server) over the alphabets of SASL.tla; scripts: all of length <= 3" % (
             ("4", "3 (payload variants on the first offered mechanism only)") if quick
             else ("5", "4 (reduced alphabet, basic scripts) and 3 (full alphabet, all scripts incl. early permission checks)")),
